@@ -52,8 +52,19 @@ def sale_critic(n_obs, n_act, zs=2, seed=0):
     return ContinuousClippedDoubleQNet(one(seed), one(seed + 1))
 
 
-def encoder_policy(n_obs, n_act, seed=0, n_bins=3, zs=2):
+# Width of every layer that is followed by a LayerNorm.  NOT 2: LayerNorm over two features maps (a, b) to (+-1, -+1)
+# whatever the magnitudes, so a seeded two-wide network is blind to the scale of its input (a wrongly scaled action
+# gave bit-identical losses in mode-C replays).
+W = 3
+
+
+def encoder_policy(n_obs, n_act, seed=0, n_bins=3, zs=W):
     from rl_blox.blox.embedding.model_based_encoder import create_model_based_encoder_and_policy
     return create_model_based_encoder_and_policy(
-        n_state_features=n_obs, n_action_features=n_act, action_space=box(n_act), policy_hidden_nodes=[2], encoder_n_bins=n_bins,
-        encoder_zs_dim=zs, encoder_za_dim=2, encoder_zsa_dim=2, encoder_hidden_nodes=[2], rngs=nnx.Rngs(seed))
+        n_state_features=n_obs, n_action_features=n_act, action_space=box(n_act), policy_hidden_nodes=[W], encoder_n_bins=n_bins,
+        encoder_zs_dim=zs, encoder_za_dim=W, encoder_zsa_dim=W, encoder_hidden_nodes=[W], rngs=nnx.Rngs(seed))
+
+
+def mrq_q(seed=0):
+    """MR.Q critic over the zsa embedding of encoder_policy."""
+    return double_q(W - 1, 1, (W,), seed, ln=True)
